@@ -170,6 +170,9 @@ fn main() {
             } else {
                 None
             };
+            // constant predicates (1 = 0, 1 = 1, NULL comparisons): the optimizer folds them before the
+            // aggregation runs; the model then sees no row (or every row)
+            let constant: Option<(&'static str, bool)> = if flt.is_none() && r.chance(1, 6) { Some(*r.pick(&[("1 = 0", false), ("1 = 1", true), ("2 < 1", false), ("NULL = 1", false), ("NOT (1 = 0)", true), ("1 = 0 AND c0 = c0", false)])) } else { None };
             let grouped = r.chance(3, 5);
             let nkeys = if grouped { 1 + r.below(2.min(ncols as u64)) as usize } else { 0 };
             let mut keys: Vec<usize> = Vec::new();
@@ -213,6 +216,10 @@ fn main() {
             if let Some((c, op, _, lit)) = &flt {
                 q.push_str(&format!(" WHERE c{} {} {}", c, op, sql_lit(lit)));
             }
+            if let Some((text, _)) = &constant {
+                q.push_str(&format!(" WHERE {}", text));
+                sum.count("where:constant-predicate");
+            }
             if grouped {
                 q.push_str(&format!(" GROUP BY {}", key_sql.join(", ")));
             }
@@ -240,9 +247,9 @@ fn main() {
                 _ => "C07Err".to_string(),
             };
             let case_coq = format!(
-                "{{| cid := {}; crows := rows{}; cflt := {}; ckeys := [{}]; cgrouped := {}; csels := [{}]; cobs := {} |}}",
+                "{{| cid := {}; crows := {}; cflt := {}; ckeys := [{}]; cgrouped := {}; csels := [{}]; cobs := {} |}}",
                 this,
-                k,
+                if matches!(constant, Some((_, false))) { "[]".to_string() } else { format!("rows{}", k) },
                 flt_coq,
                 keys.iter().map(|c| format!("{}%nat", c)).collect::<Vec<_>>().join("; "),
                 grouped,
@@ -262,6 +269,7 @@ fn main() {
             // ---- direct checks on the implementation ----
             let passing = rows
                 .iter()
+                .filter(|_| !matches!(constant, Some((_, false))))
                 .filter(|row| match &flt {
                     None => true,
                     Some((c, op, _, lit)) => {
